@@ -6,6 +6,7 @@ import z3
 
 from pyvc.core import Contract, Case
 from pyvc.runner import Lemma
+from pyvc.values import GenericIter
 from pyvc.values import SV, SymMap, Leaf, NameSort, real_val
 from pyvc import amlmodel, library
 from pyvc.amlmodel import ModelStub
@@ -103,7 +104,7 @@ def _value_param_case(builder, field, mk_elem, spec, tracked, existing, extra_fi
         for cf in (constants.hazen_williams_constants, constants.pdd_constants):
             cx.interp.call(cf, [m])
         upd = Updater()
-        cx.target(builder.build, m, wn, upd, [n])
+        cx.target(builder.build, m, wn, upd, GenericIter([n]))
         cx.el, cx.wn, cx.m = el, wn, m
 
         def post(out):
@@ -116,7 +117,7 @@ def _value_param_case(builder, field, mk_elem, spec, tracked, existing, extra_fi
             writes_ok = all((not isinstance(o, SymMap)) or (o is mp and k.t.eq(n.t)) for (o, k, v) in cx.path.writes)
             return [("param_value_is_spec", library.as_real(val) == want),
                     ("frame_only_own_entry", writes_ok),
-                    ("updater_tracks_inputs", updater_registered(upd, el, tracked))]
+                    ("updater_tracks_inputs", updater_registered(upd, el, tracked, builder))]
         cx.ensure(post)
     return Case("%s,existing=%s" % (builder.__name__, existing), build, crosscheck=False)
 
@@ -194,7 +195,7 @@ def _pnom_case(per_node, existing):
         upd = Updater()
         eff = cx.t(pn) if per_node else cx.t(pg)
         cx.allow_raise(ValueError, eff <= real_val(0.05))
-        cx.target(param.pnom_param.build, m, wn, upd, [n])
+        cx.target(param.pnom_param.build, m, wn, upd, GenericIter([n]))
 
         def post(out):
             if out.kind == "raise":
@@ -202,7 +203,7 @@ def _pnom_case(per_node, existing):
             leaf = cx.interp.getitem(m.fields["pnom"], n)
             return [("param_value_is_spec", library.as_real(leaf.value) == eff),
                     ("accepted_only_above_delta", eff > real_val(0.05)),
-                    ("updater_tracks_inputs", updater_registered(upd, node, ["required_pressure"]))]
+                    ("updater_tracks_inputs", updater_registered(upd, node, ["required_pressure"], param.pnom_param))]
         cx.ensure(post)
     return Case("pnom_param,per_node=%s,existing=%s" % (per_node, existing), build, crosscheck=False)
 
@@ -238,7 +239,7 @@ def _pdd_poly_case(per_node, exp_mode, existing):
         # is_valid(): Pmin < Preq with room for both smoothing bands; exponent in (0, 1]
         cx.assume(PF - P0 > 2 * dl, E > 0, E <= 1)
         cx.region("e_not_half", E != real_val(0.5))
-        cx.target(param.pdd_poly_coeffs_param.build, m, wn, upd, [n])
+        cx.target(param.pdd_poly_coeffs_param.build, m, wn, upd, GenericIter([n]))
 
         def post(out):
             if not out.returned:
@@ -263,7 +264,7 @@ def _pdd_poly_case(per_node, exp_mode, existing):
                 ("poly2_joins_power_law_at_Preq_minus_delta", poly(a2, b2, c2, d2, PF - dl) == pw(hi)),
                 ("poly2_slope_matches_power_law", dpoly(a2, b2, c2, PF - dl) == dpw(hi)),
                 ("poly2_joins_full_demand_at_Preq", z3.And(poly(a2, b2, c2, d2, PF) == 1, dpoly(a2, b2, c2, PF) == sl)),
-                ("updater_tracks_inputs", updater_registered(upd, node, ["minimum_pressure", "required_pressure"])),
+                ("updater_tracks_inputs", updater_registered(upd, node, ["minimum_pressure", "required_pressure"], param.pdd_poly_coeffs_param)),
             ]
         cx.ensure(post)
     return Case("pdd_poly,per_node=%s,exponent=%s,existing=%s" % (per_node, exp_mode, existing), build, crosscheck=False)
@@ -284,7 +285,7 @@ def _leak_poly_case(cls, existing):
         m = cx.obj(ModelStub, **({k: leafmap(k, True) for k in names} if existing else {}))
         cx.interp.call(constants.leak_constants, [m])
         upd = Updater()
-        cx.target(param.leak_poly_coeffs_param.build, m, wn, upd, [n])
+        cx.target(param.leak_poly_coeffs_param.build, m, wn, upd, GenericIter([n]))
 
         def post(out):
             if not out.returned:
@@ -298,7 +299,7 @@ def _leak_poly_case(cls, existing):
             return [("cubic_joins_zero_branch_at_p=0", z3.And(poly(a, b, c, d, 0) == 0, dpoly(a, b, c, 0) == sl)),
                     ("cubic_joins_orifice_law_at_delta", poly(a, b, c, d, dl) == CD * A * c_val),
                     ("cubic_slope_matches_orifice_law", dpoly(a, b, c, dl) == real_val(0.5) * CD * A * c_slope),
-                    ("updater_tracks_inputs", updater_registered(upd, node, ["leak_discharge_coeff", "leak_area"]))]
+                    ("updater_tracks_inputs", updater_registered(upd, node, ["leak_discharge_coeff", "leak_area"], param.leak_poly_coeffs_param))]
         cx.ensure(post)
     return Case("leak_poly,%s,existing=%s" % (cls.__name__, existing), build, crosscheck=False)
 
